@@ -40,6 +40,55 @@ def classes_ok(v, top=True):
     return True
 
 
+def parser_container_calls():
+    """method calls and item assignments the parser makes on a container under construction (the names
+    `module`, `m`, `agg` in pvl/parser.py) -> set of strings; the Lean theorem C19_containers_agree is about the
+    alphabet {append(k, v), pop()}; reads (`len`, `[-1]`) are observers and `errors` is an attribute"""
+    import ast, os, pvl.parser
+    tree = ast.parse(open(pvl.parser.__file__).read())
+    names = {"module", "m", "agg"}
+    out = set()
+    for node in ast.walk(tree):
+        if isinstance(node, ast.Call) and isinstance(node.func, ast.Attribute) and isinstance(node.func.value, ast.Name) \
+                and node.func.value.id in names:
+            out.add("%s(%d)" % (node.func.attr, len(node.args) + len(node.keywords)))
+        if isinstance(node, (ast.Assign, ast.AugAssign, ast.Delete)):
+            tg = node.targets if not isinstance(node, ast.AugAssign) else [node.target]
+            for x in tg:
+                if isinstance(x, ast.Subscript) and isinstance(x.value, ast.Name) and x.value.id in names:
+                    out.add("subscript-store")
+    return out
+
+
+def model_tie(rng):
+    """the premises of C19_containers_agree, looked at on the code: (1) the parser's container alphabet,
+    (2) `ListLike` on the real classes of both families (items() after append / pop()) -> complaints"""
+    import pvl.collections as pc
+    out = []
+    calls = parser_container_calls()
+    extra = {c for c in calls if c not in ("append(1)", "append(2)", "pop(0)")}
+    if extra:
+        out.append("the parser changes the container under construction through %s (the theorem knows append and pop())" % sorted(extra))
+    for cls in (pc.PVLModuleNew, pc.PVLGroupNew, pc.PVLObjectNew, pc.PVLModule, pc.PVLGroup, pc.PVLObject):
+        c = cls(); ref = []
+        if list(c.items()) != []:
+            out.append("%s() is not empty" % cls.__name__); continue
+        for _ in range(40):
+            if ref and rng.random() < 0.3:
+                try:
+                    c.pop()
+                except AttributeError:
+                    break      # KF-C19-1: multidict 6.8 has no _impl; reported as a known finding below
+                ref.pop()
+            else:
+                k, v = rng.choice("abcA"), rng.randrange(5)
+                c.append(k, v); ref.append((k, v))
+            if [tuple(p) for p in c.items()] != ref:
+                out.append("%s: items() after append/pop() is %r, the list-like assumption says %r" % (cls.__name__, list(c.items())[:6], ref[:6]))
+                break
+    return out
+
+
 def run(ctx):
     lean = core.standard_lean_phase(ctx, PROP_MODULES)
     import pvl, pvl.new as pnew
@@ -120,8 +169,14 @@ def run(ctx):
                         why = "pvl.new.dumps(m) differs from pvl.dumps(m) (default encoder): %r vs %r" % (str(db)[:120], str(da)[:120])
         if why and bad is None:
             bad = {"what": why, "text": t}
+    tie = model_tie(rng)
     if bad:
         core.violation(ctx, "text", bad, True)
+    elif tie:
+        # the premises of C19_containers_agree no longer describe the code; the differential above searched for
+        # a text on which the two loaders differ and found none
+        core.violation(ctx, "correspondence", {"what": "C19_containers_agree no longer applies to the code: " + "; ".join(tie),
+                                               "broken": ["C19_containers_agree (premises)"]}, False)
     elif not lean["ok"]:
         core.violation(ctx, "proof", {"what": "C19 proof obligations no longer check", "broken": lean["problems"]}, False)
     for f in kf:
@@ -144,7 +199,8 @@ def run(ctx):
            "theorems": lean["names"], "lean_problems": lean["problems"]}
     return core.finish(ctx, "proof", lean["obligations"], lean["discharged"],
                        "cd lean && lake build PvlModel.Props.C19 && lake env lean <#print axioms file>", cov,
-                       ["third-party multidict 6.8.0 is assumed lawful on append / iteration / len / index access",
+                       ["third-party multidict 6.8.0 enters C19_containers_agree as a parameter (ListLike: items() after append / pop()); the assumption is exercised on the real classes on every run",
+                        "the parser's container alphabet {append, pop()} is read from pvl/parser.py with ast on every run",
                         "the property quantifies over well-formed texts; texts with missing values are outside it"])
 
 
